@@ -102,16 +102,20 @@ def spanDigits : Str → Str × Str
 def int64OfInt (i : Int) : Option Int64 :=
   if -9223372036854775808 ≤ i ∧ i ≤ 9223372036854775807 then some (Int64.ofInt i) else none
 
-/-- a DynamoDB `N` attribute / strconv.ParseInt(s, 10, 64): optional sign, digits only, in range. -/
-def parseInt64Str (s : Str) : Option Int64 :=
-  let (neg, ds) := match s with
-    | '-' :: r => (true, r)
-    | '+' :: r => (false, r)
-    | r => (false, r)
+def signOf64 : Str → Bool × Str
+  | '-' :: r => (true, r)
+  | '+' :: r => (false, r)
+  | r => (false, r)
+
+def parseInt64Body (neg : Bool) (ds : Str) : Option Int64 :=
   match spanDigits ds with
   | ([], _) => none
   | (d, []) => int64OfInt (if neg then -(digitsVal d : Int) else (digitsVal d : Int))
   | _ => none
+
+/-- a DynamoDB `N` attribute / strconv.ParseInt(s, 10, 64): optional sign, digits only, in range. -/
+def parseInt64Str (s : Str) : Option Int64 :=
+  parseInt64Body (signOf64 s).1 (signOf64 s).2
 
 /-! ## JSON (RFC 8259; numbers restricted to integers — the documented shapes contain no others) -/
 
@@ -234,11 +238,11 @@ def parseStrBodyP : Option Nat → Str → Option (Str × Str)
 
 def parseStrBody (s : Str) : Option (Str × Str) := parseStrBodyP none s
 
-/-- an integer literal `-?(0|[1-9][0-9]*)` not followed by a fraction or exponent. -/
-def parseNum (s : Str) : Option (Int × Str) :=
-  let (neg, ds) := match s with
-    | '-' :: r => (true, r)
-    | r => (false, r)
+def signOf : Str → Bool × Str
+  | '-' :: r => (true, r)
+  | r => (false, r)
+
+def parseNumBody (neg : Bool) (ds : Str) : Option (Int × Str) :=
   match spanDigits ds with
   | ([], _) => none
   | (d, rest) =>
@@ -247,6 +251,10 @@ def parseNum (s : Str) : Option (Int × Str) :=
     | c :: _ => if c = '.' ∨ c = 'e' ∨ c = 'E' then none
                 else some (if neg then -(digitsVal d : Int) else (digitsVal d : Int), rest)
     | [] => some (if neg then -(digitsVal d : Int) else (digitsVal d : Int), rest)
+
+/-- an integer literal `-?(0|[1-9][0-9]*)` not followed by a fraction or exponent. -/
+def parseNum (s : Str) : Option (Int × Str) :=
+  parseNumBody (signOf s).1 (signOf s).2
 
 mutual
 /-- one JSON value (leading white space skipped) and the remaining input; `none` = syntax error. -/
